@@ -18,6 +18,9 @@ pub struct Case {
     /// value variant width in bits (may deliberately differ from the kind's width)
     pub vbits: u8,
     pub val: RVal,
+    /// parts of the argument the conversion has nothing to do with: (variable-info flag, name, unit, trace-info flag, coding)
+    #[serde(default)]
+    pub extras: Option<(bool, Option<String>, Option<String>, bool, u8)>,
 }
 
 fn build(c: &Case) -> Argument {
@@ -26,10 +29,11 @@ fn build(c: &Case) -> Argument {
         (RVal::I(_), b) => RKind::Sint(b),
         _ => c.kind,
     };
+    let (vari, name, unit, trai, scod) = c.extras.clone().unwrap_or((false, None, None, false, 0));
     Argument {
-        type_info: type_to_crate(&RType { kind: c.kind, vari: false, trai: false, scod: 0 }),
-        name: None,
-        unit: None,
+        type_info: type_to_crate(&RType { kind: c.kind, vari, trai, scod }),
+        name,
+        unit,
         fixed_point: c.fixp.map(|(q, off, is64)| FixedPoint {
             quantization: f32::from_bits(q),
             offset: if is64 { FixedPointValue::I64(off) } else { FixedPointValue::I32(off as i32) },
@@ -127,7 +131,7 @@ pub fn strategy() -> impl Strategy<Value = Case> {
                     RVal::U(x) => RVal::U(if vbits == 128 { x } else { x & ((1u128 << vbits) - 1) }),
                     o => o,
                 };
-                Case { kind, fixp: if some || matched { Some((q, off, is64)) } else { None }, vbits, val: v }
+                Case { kind, fixp: if some || matched { Some((q, off, is64)) } else { None }, vbits, val: v, extras: None }
             })
         },
     );
@@ -137,14 +141,30 @@ pub fn strategy() -> impl Strategy<Value = Case> {
                 RKind::Sint(b) | RKind::Uint(b) | RKind::SintFx(b) | RKind::UintFx(b) | RKind::Float(b) => b,
                 _ => 8,
             };
-            Case { kind, fixp: if with_fp || matches!(kind, RKind::SintFx(_) | RKind::UintFx(_)) { Some((q, off, vbits == 64)) } else { None }, vbits, val }
+            Case { kind, fixp: if with_fp || matches!(kind, RKind::SintFx(_) | RKind::UintFx(_)) { Some((q, off, vbits == 64)) } else { None }, vbits, val, extras: None }
         })
     });
     // fixed-point kind carrying a non-integer value
     let odd = (prop::sample::select(vec![RKind::SintFx(32), RKind::UintFx(64)]), g::f32_bits(), offsets(), g::kind()).prop_flat_map(|(kind, q, off, vk)| {
-        g::value_for(vk, 20).prop_map(move |val| Case { kind, fixp: Some((q, off, false)), vbits: 8, val })
+        g::value_for(vk, 20).prop_map(move |val| Case { kind, fixp: Some((q, off, false)), vbits: 8, val, extras: None })
     });
-    prop_oneof![8 => fixed, 2 => other, 1 => odd, 2 => window_edges(), 1 => just_below_integer()]
+    // every part of the argument drawn independently of the others: any kind x fixed-point data present or not x a
+    // value of any variant (also one that contradicts the kind)
+    let independent = (g::kind(), g::kind(), prop::option::weighted(0.7, (prop_oneof![nice_q(), g::f32_bits()], offsets(), any::<bool>())), prop::sample::select(vec![8u8, 16, 32, 64, 128])).prop_flat_map(|(kind, vk, fixp, vb)| {
+        g::value_for(vk, 20).prop_map(move |val| {
+            let vbits = match vk {
+                RKind::Sint(b) | RKind::Uint(b) | RKind::SintFx(b) | RKind::UintFx(b) => b,
+                _ => vb,
+            };
+            Case { kind, fixp, vbits, val, extras: None }
+        })
+    });
+    let base = prop_oneof![8 => fixed, 2 => other, 1 => odd, 2 => window_edges(), 1 => just_below_integer(), 2 => independent];
+    // name / unit / flags / coding have nothing to do with the conversion: any combination, consistent or not
+    (base, prop::option::weighted(0.5, (any::<bool>(), prop::option::of(g::short_text(8)), prop::option::of(g::short_text(8)), any::<bool>(), 0u8..8))).prop_map(|(mut c, extras)| {
+        c.extras = extras;
+        c
+    })
 }
 
 /// products that land exactly on / next to the edges of the window the statement fixes (0, 2^31, 2^32, 2^53, 2^63, 2^64):
@@ -180,7 +200,7 @@ fn window_edges() -> impl Strategy<Value = Case> {
             };
             let val = if matches!(kind, RKind::SintFx(_)) { RVal::I(v as i128) } else { RVal::U(v) };
             let off = if neg_off { off.checked_neg().unwrap_or(i64::MIN) } else { off };
-            Case { kind, fixp: Some((q, off, is64)), vbits, val }
+            Case { kind, fixp: Some((q, off, is64)), vbits, val, extras: None }
         })
 }
 
@@ -214,7 +234,7 @@ fn just_below_integer() -> impl Strategy<Value = Case> {
         let fits_signed = (v as u128) < (1u128 << (vbits - 1));
         let kind = if signed && fits_signed { RKind::SintFx(vbits) } else { RKind::UintFx(vbits) };
         let val = if matches!(kind, RKind::SintFx(_)) { RVal::I(v as i128) } else { RVal::U(v as u128) };
-        Case { kind, fixp: Some((q.to_bits(), off, is64)), vbits, val }
+        Case { kind, fixp: Some((q.to_bits(), off, is64)), vbits, val, extras: None }
     })
 }
 
